@@ -564,27 +564,65 @@ var declPositions = []struct {
 	Name string
 	Pre  func(T, K string) string // extra top-level declarations
 	Body func(T, K string) string
+	Short bool // a short declaration: the constant takes its default type, so only for int32 and float64
 }{
-	{"dvar", nil, func(T, K string) string { return "var x " + T + " = " + K + "; return x" }},
-	{"dconv", nil, func(T, K string) string { return "x := " + T + "(" + K + "); return x" }},
-	{"dassign", nil, func(T, K string) string { return "var x " + T + "; x = " + K + "; return x" }},
-	{"dparam", nil, func(T, K string) string { return "return ident(" + K + ")" }},
-	{"dresult", func(T, K string) string { return "func res_NAME() " + T + " { return " + K + " }" }, func(T, K string) string { return "return res_NAME()" }},
-	{"dfieldlit", nil, func(T, K string) string { return "s := &S{F: " + K + "}; return s.F" }},
-	{"dfieldset", nil, func(T, K string) string { return "s := &S{}; s.F = " + K + "; return s.F" }},
-	{"dslicelit", nil, func(T, K string) string { return "v := []" + T + "{" + K + "}; return v[0]" }},
-	{"delemset", nil, func(T, K string) string { return "v := make([]" + T + ", 1); v[0] = " + K + "; return v[0]" }},
-	{"dappend", nil, func(T, K string) string { return "var v []" + T + "; v = append(v, " + K + "); return v[0]" }},
-	{"dmaplit", nil, func(T, K string) string { return "m := map[string]" + T + "{\"k\": " + K + "}; return m[\"k\"]" }},
-	{"dmapset", nil, func(T, K string) string { return "m := map[string]" + T + "{}; m[\"k\"] = " + K + "; return m[\"k\"]" }},
-	{"dglobal", func(T, K string) string { return "var G_NAME " + T + " = " + K }, func(T, K string) string { return "return G_NAME" }},
-	{"dconst", func(T, K string) string { return "const C_NAME " + T + " = " + K }, func(T, K string) string { return "x := C_NAME; return x" }},
-	{"dvariadic", nil, func(T, K string) string { return "return first(" + K + ", " + K + ")" }},
-	{"dmulti", nil, func(T, K string) string { return "var x, y " + T + " = " + K + ", " + K + "; return x + y - y" }},
+	{"dshort", nil, func(T, K string) string { return "x := " + shortLit(T, K) + "; return x" }, true},
+	{"dshort2", nil, func(T, K string) string { return "u := true; x := " + shortLit(T, K) + "; if u { return x }; return x" }, true},
+	{"dshort3", nil, func(T, K string) string { return "w, x, y := true, " + shortLit(T, K) + ", " + shortLit(T, K) + "; if w { return x }; return y" }, true},
+	{"dshortloop", nil, func(T, K string) string { return "for i := 0; i < 1; i++ { x := " + shortLit(T, K) + "; return x }; return 0" }, true},
+	{"dvar", nil, func(T, K string) string { return "var x " + T + " = " + K + "; return x" }, false},
+	{"dconv", nil, func(T, K string) string { return "x := " + T + "(" + K + "); return x" }, false},
+	{"dassign", nil, func(T, K string) string { return "var x " + T + "; x = " + K + "; return x" }, false},
+	{"dparam", nil, func(T, K string) string { return "return ident(" + K + ")" }, false},
+	{"dresult", func(T, K string) string { return "func res_NAME() " + T + " { return " + K + " }" }, func(T, K string) string { return "return res_NAME()" }, false},
+	{"dfieldlit", nil, func(T, K string) string { return "s := &S{F: " + K + "}; return s.F" }, false},
+	{"dfieldset", nil, func(T, K string) string { return "s := &S{}; s.F = " + K + "; return s.F" }, false},
+	{"dslicelit", nil, func(T, K string) string { return "v := []" + T + "{" + K + "}; return v[0]" }, false},
+	{"delemset", nil, func(T, K string) string { return "v := make([]" + T + ", 1); v[0] = " + K + "; return v[0]" }, false},
+	{"dappend", nil, func(T, K string) string { return "var v []" + T + "; v = append(v, " + K + "); return v[0]" }, false},
+	{"dmaplit", nil, func(T, K string) string { return "m := map[string]" + T + "{\"k\": " + K + "}; return m[\"k\"]" }, false},
+	{"dmapset", nil, func(T, K string) string { return "m := map[string]" + T + "{}; m[\"k\"] = " + K + "; return m[\"k\"]" }, false},
+	{"dglobal", func(T, K string) string { return "var G_NAME " + T + " = " + K }, func(T, K string) string { return "return G_NAME" }, false},
+	{"dconst", func(T, K string) string { return "const C_NAME " + T + " = " + K }, func(T, K string) string { return "x := C_NAME; return x" }, false},
+	{"dvariadic", nil, func(T, K string) string { return "return first(" + K + ", " + K + ")" }, false},
+	{"dmulti", nil, func(T, K string) string { return "var x, y " + T + " = " + K + ", " + K + "; return x + y - y" }, false},
 }
 
+// shortLit spells the constant so that its default type is the type under test (a float constant keeps a decimal point).
+func shortLit(T, K string) string {
+	if T == "float64" && !strings.ContainsAny(K, ".eIN") {
+		return K + ".0"
+	}
+	return K
+}
+
+func declOK(short bool, t ntype) bool { return !short || t == tI32 || t == tF64 }
+
+const headerEnd = "// end of header\n"
+
+// header declares what every numeric script shares. The pol*/tramp* functions serve the second way every function is
+// called (see script.call): through a script-side trampoline, right after a function whose locals left values of
+// another type on the operand stack where the callee's own locals will live.
 func header(T string) string {
-	return "type S struct { F " + T + " }\nvar GA " + T + "\nvar GB " + T + "\nfunc ident(a " + T + ") " + T + " { return a }\nfunc first(a ..." + T + ") " + T + " { return a[0] }\n"
+	var sb strings.Builder
+	sb.WriteString("type S struct { F " + T + " }\nvar GA " + T + "\nvar GB " + T + "\nfunc ident(a " + T + ") " + T + " { return a }\nfunc first(a ..." + T + ") " + T + " { return a[0] }\n")
+	sb.WriteString("func pol0() { var a float64 = 1.5; b := 2.5; var c float64; d := a + b + c; e := 0.5; f := d * e; g := f; h := g; h = h }\n")
+	sb.WriteString("func pol1() { var a int8 = 100; var b int8 = 3; c := a - b; d := c; e := d; f := e; g := f; h := g; h = h }\n")
+	sb.WriteString("func pol2() { var a uint8 = 200; var b uint8 = 3; c := a - b; d := c; e := d; f := e; g := f; h := g; h = h }\n")
+	sb.WriteString("func pol3() { var a uint32 = 4000000000; var b uint32 = 3; c := a - b; d := c; e := d; f := e; g := f; h := g; h = h }\n")
+	sb.WriteString("func pol4() { a := \"s\"; b := a + a; c := b; d := true; e := d; f := []int{1}; g := f; h := g; h = h; e = e; c = c }\n")
+	sb.WriteString("func pol5() { a := 7; b := a + 1; c := b; d := c; e := d; f := e; g := f; h := g; h = h }\n")
+	// the polluter is called from the trampoline's own frame, with nothing else on the operand stack: its locals
+	// then occupy exactly the slots the callee's arguments and locals take afterwards
+	pol := "if p == 0 { pol0() } else if p == 1 { pol1() } else if p == 2 { pol2() } else if p == 3 { pol3() } else if p == 4 { pol4() } else { pol5() }"
+	sb.WriteString("func tramp0(p int, f func() any) any { " + pol + "; return f() }\n")
+	sb.WriteString("func tramp1(p int, f func(" + T + ") any, a " + T + ") any { " + pol + "; return f(a) }\n")
+	sb.WriteString("func tramp2(p int, f func(" + T + ", " + T + ") any, a " + T + ", b " + T + ") any { " + pol + "; return f(a, b) }\n")
+	for _, ct := range []ntype{tI8, tU8, tI32, tU32} {
+		sb.WriteString("func trampsh_" + typeName[ct] + "(p int, f func(" + T + ", " + typeName[ct] + ") any, a " + T + ", n " + typeName[ct] + ") any { " + pol + "; return f(a, n) }\n")
+	}
+	sb.WriteString(headerEnd)
+	return sb.String()
 }
 
 // kname makes a constant usable in an identifier.
@@ -597,9 +635,12 @@ func kname(k num) string {
 // ---- running ----------------------------------------------------------------------------------
 
 type script struct {
-	vm    *goat.VM
-	src   string
-	funcs map[string]goatlang.Value
+	vm      *goat.VM
+	src     string
+	funcs   map[string]goatlang.Value
+	calls   int
+	via     string // set by call when the trampoline's result differs from the direct one
+	noTramp bool   // replays of cases recorded before the trampolines existed
 }
 
 func load(src string, optimize bool) (*script, *ev.Failure) {
@@ -699,12 +740,53 @@ func describe(v goatlang.Value) string {
 	return fmt.Sprintf("%s(%v)", tn, v.Float64())
 }
 
+// call invokes a script function from the host twice: directly (a fresh operand stack), and through a script-side
+// trampoline that first runs a function leaving locals of another type on the stack. Both must give the result Go
+// defines; when they differ the trampoline's result is reported (s.via says so).
 func (s *script) call(name string, args ...num) goat.Result {
 	vals := make([]goatlang.Value, len(args))
 	for i, a := range args {
 		vals[i] = a.value()
 	}
-	return s.vm.Func(s.fn(name), 1, 100000, vals...)
+	s.via = ""
+	direct := s.vm.Func(s.fn(name), 1, 100000, vals...)
+	tramp := ""
+	switch {
+	case len(args) == 0:
+		tramp = "tramp0"
+	case len(args) == 1:
+		tramp = "tramp1"
+	case len(args) == 2 && args[0].T == args[1].T && !strings.HasPrefix(name, "f_mixsh"):
+		tramp = "tramp2"
+	case len(args) == 2 && strings.HasPrefix(name, "f_mixsh"):
+		tramp = "trampsh_" + typeName[args[1].T]
+	}
+	if tramp == "" || s.noTramp {
+		return direct
+	}
+	s.calls++
+	p := s.calls % 6
+	tv := append([]goatlang.Value{goatlang.Int(p), s.fn(name)}, vals...)
+	via := s.vm.Func(s.fn(tramp), 1, 100000, tv...)
+	if resultKey(direct) != resultKey(via) {
+		s.via = fmt.Sprintf(" [called through %s after pol%d(), whose locals stayed on the stack; called directly from the host it gives %s]", tramp, p, resultKey(direct))
+		return via
+	}
+	return direct
+}
+
+func resultKey(r goat.Result) string {
+	if r.Panic != nil {
+		return "HOST PANIC"
+	}
+	if r.Err != nil {
+		return "error"
+	}
+	var parts []string
+	for _, v := range r.Rets {
+		parts = append(parts, describe(v))
+	}
+	return strings.Join(parts, ",")
 }
 
 // nontrivial: the exact result differs from the mathematically unbounded one, or a boundary value is involved.
@@ -822,9 +904,9 @@ func reportBin(s *script, name, desc string, want outcome, optimize bool, args .
 		}
 	}
 	fsrc = strings.TrimSuffix(fsrc, "\n")
-	hdr := strings.Join(strings.SplitN(s.src, "\n", 6)[:5], "\n") + "\n"
+	hdr := s.src[:strings.Index(s.src, headerEnd)+len(headerEnd)]
 	c := Case{Header: hdr, Func: fsrc, Name: name, Args: args, Want: want.String(), Optimize: optimize, Desc: desc}
-	return &ev.Failure{Kind: "call", Case: c, Msg: fmt.Sprintf("%s with %v (optimizer %v): Go gives %s, goatlang gives %s\n  %s", desc, args, onoff(optimize), want, got, fsrc)}
+	return &ev.Failure{Kind: "call", Case: c, Msg: fmt.Sprintf("%s with %v (optimizer %v): Go gives %s, goatlang gives %s%s\n  %s", desc, args, onoff(optimize), want, got, s.via, fsrc)}
 }
 
 func onoff(b bool) string {
@@ -1143,6 +1225,9 @@ func constScript(t ntype, T string, ks []num) string {
 			}
 		}
 		for _, d := range declPositions {
+			if !declOK(d.Short, t) {
+				continue
+			}
 			name := "d_" + d.Name + "_" + typeName[t] + "_" + kname(k)
 			if d.Pre != nil {
 				sb.WriteString(strings.ReplaceAll(d.Pre(T, k.lit()), "NAME", name) + "\n")
@@ -1163,6 +1248,9 @@ func checkConstChunk(t *testing.T, r *ev.Rec, ty ntype, T string, ks []num, opt 
 	cnt := counter(r, true, nil)
 	for _, k := range ks {
 		for _, d := range declPositions {
+			if !declOK(d.Short, ty) {
+				continue
+			}
 			name := "d_" + d.Name + "_" + typeName[ty] + "_" + kname(k)
 			want := onum(k)
 			lo, hi := rangeOf(ty)
@@ -1383,6 +1471,9 @@ func TestRandomConst(t *testing.T) {
 		cnt := counter(r, false, func() string { return fmt.Sprint(ty, opt, k, a) })
 		r.Sample(map[string]any{"type": T, "optimizer": onoff(opt), "constant": k.lit(), "a": a.String()})
 		for _, d := range declPositions {
+			if !declOK(d.Short, ty) {
+				continue
+			}
 			name := "d_" + d.Name + "_" + typeName[ty] + "_" + kname(k)
 			cnt(true)
 			if f := reportBin(s, name, fmt.Sprintf("untyped constant %s in context %q of type %s", k.lit(), d.Name, T), onum(k), opt); f != nil {
@@ -1429,7 +1520,14 @@ func TestReplay(t *testing.T) {
 			if f != nil {
 				return f
 			}
-			r := s.call(c.Name, c.Args...)
+			s.noTramp = !strings.Contains(c.Header, headerEnd)
+			var r goat.Result
+			for i := 0; i < 6; i++ { // every pol variant
+				r = s.call(c.Name, c.Args...)
+				if s.via != "" {
+					break
+				}
+			}
 			got := "error: " + r.ErrString()
 			if !r.Failed() && len(r.Rets) == 1 {
 				got = describe(r.Rets[0])
